@@ -16,6 +16,7 @@ enough fuel the model function returns the outcome `r` (not the fuel error) and 
 -/
 import RuschmSpec.Ref
 import RuschmProofs.EvalLemmas
+import RuschmModel.Interp
 
 namespace Ruschm.C01
 open Ruschm Ruschm.Eval Ruschm.Ref
@@ -33,7 +34,8 @@ def σ₀ : Store :=
   let σ := ((σ.define 0 "cons" (.builtin .cons)).define 0 "car" (.builtin .car)).define 0 "*" (.builtin .mul)
   (σ.newFrame (some 0)).2.define 1 "x" (num 2)
 
-theorem σ₀_parentsOlder : ParentsOlder σ₀ := by
+/-- the sample store satisfies the hypothesis of `lookup_innermost` -/
+example : ParentsOlder σ₀ := by
   unfold σ₀
   apply parentsOlder_define
   apply parentsOlder_newFrame
@@ -541,6 +543,42 @@ theorem ref_apply_refines_model {m σ p args v τ} (h : Ref.apply m σ.erase p a
   obtain ⟨σ', h₁, h₂⟩ := (conv_all m).apply (σ := enter σ) (by simpa using h) env
   obtain ⟨_, N, hN⟩ := (AppliesProc.of_loop h₁).out
   exact ⟨N, leave σ', hN N (Nat.le_refl _), by simpa using h₂⟩
+
+/-- Top-level forms (`eval_expression_or_definition` in the frame `ρ`): an expression statement
+yields the value, a definition binds the name in `ρ`, as the reference prescribes; nothing else
+of the interpreter state changes. -/
+theorem toplevel_refines_ref {n st s ρ r st'} (hs : (∃ e, s = .expr e) ∨ (∃ d, s = .definition d))
+    (h : Interp.evalExprOrDef n st s ρ = (r, st')) (hr : NotFuel r) :
+    ∃ m r', Ref.evalTop m st.store.erase ρ s = (r', st'.store.erase) ∧ Agree r r' ∧
+      st' = { st with store := st'.store } := by
+  rcases hs with ⟨e, rfl⟩ | ⟨⟨x, e, l⟩, rfl⟩
+  · simp only [Interp.evalExprOrDef] at h
+    split at h
+    next v σ' he =>
+      cases h
+      obtain ⟨m, hm⟩ := model_refines_ref_value he
+      exact ⟨m, .ok (some v), by simp [Ref.evalTop, hm], rfl, rfl⟩
+    next er σ' he =>
+      cases h
+      obtain ⟨m, r', hm, ha⟩ := model_refines_ref he hr.cast
+      obtain ⟨er', rfl, hag⟩ := Agree.error_iff.mp ha
+      exact ⟨m, .error er', by simp [Ref.evalTop, hm], hag, rfl⟩
+  · simp only [Interp.evalExprOrDef] at h
+    split at h
+    next v σ' he =>
+      cases h
+      obtain ⟨m, hm⟩ := model_refines_ref_value he
+      exact ⟨m, .ok none, by simp [Ref.evalTop, hm, Store.erase_define], rfl, rfl⟩
+    next er σ' he =>
+      cases h
+      obtain ⟨m, r', hm, ha⟩ := model_refines_ref he hr.cast
+      obtain ⟨er', rfl, hag⟩ := Agree.error_iff.mp ha
+      exact ⟨m, .error er', by simp [Ref.evalTop, hm], hag, rfl⟩
+
+/-- the top-level definition `(define z (+ x 4))` in the global frame, then `z` seen from the inner frame -/
+example : ((Interp.evalExprOrDef 9 { store := σ₀ }
+      (.definition (.mk "z" (.call (var "+") [var "x", lit 4] none) none)) 0).2.store.lookup 1 "z") = some (num 5) := by
+  with_unfolding_all rfl
 
 /-- A store that carries no instrumentation is its own erasure (so for such a start store the
 reference runs from the very same store). -/
